@@ -137,8 +137,11 @@ def fix_atomic_specifiers(
             typ = typ.type
         except AttributeError:
             return decl
-    if "_Atomic" in typ.quals and "_Atomic" not in decl.quals:
-        decl.quals.append("_Atomic")
+    # decl.quals mirrors the qualifiers of the base type, including those that
+    # came from inside an _Atomic(...) specifier.
+    for qual in typ.quals:
+        if qual not in decl.quals:
+            decl.quals.append(qual)
     if typ.declname is None:
         typ.declname = decl.name
 
